@@ -8,7 +8,9 @@ Tie (every run):
   * `fmtdoc`: the real Document built by source_printer for generated modules (hook H4b): the model
     lays it out (exact equality with the real output) and evaluates the hypothesis `Agree` of
     `layout_preserves_text` on it;
-  * `queue`/`prepend`: real SourceParser::{peek,consume} / comment prepending vs the model.
+  * `queue`/`prepend`: real SourceParser::{peek,consume} / comment prepending vs the model;
+  * `imports`: the import section of the real Document (grouping by module, merged comments and members,
+    sorting) vs Model/Imports.lean, structural equality.
 Implementation-side oracle (no model): a comment of every kind inserted into every token gap of a
 corpus of valid modules; format once and twice with the real parser+printer; comment word sequence
 kept, second format identical, no panic, output still parses.
@@ -798,8 +800,8 @@ def run(ctx):
         "rule": "distinct (4-token context of the comment gap, comment kind) pairs among the module cases; each case = one comment inserted into one token gap of a valid module, formatted twice by the real parser+printer",
         "samples": samples,
         "traces_validated_against_impl": n1 + n2 + n3 + extra.get("real_documents_laid_out_by_model", 0),
-        "pending": ["roundtrip_with_comments / format_idempotent_fragment (needs the C08 fragment model with comments)"],
-        "partial_theorems": {"prepend_conserves_partial": "the node already has at least one comment (old != [])",
+        "pending": ["roundtrip_with_comments for comments attached to operator nodes (text-level statement is false: open finding C09-F5); per-production attachment model of the parser"],
+        "partial_theorems": {"format_idempotent_fragment_partial": "C08's decidable side condition RT e (operands left unparenthesised only where the parser reads them back as operands); token level; comments only on atoms",
                              "lineComment/multilineComment_content_equal": "content read modulo the repeated leaders `// ` and ` * ` (commentKey)"},
     })
     ctx.cov.update(extra)
@@ -807,7 +809,7 @@ def run(ctx):
                         "char::is_whitespace = Unicode White_Space as listed in Model/Doc.lean isWs",
                         "the lexer's comment tokens are taken as the definition of `the comments of a text` (oracle uses the real token producer on input and output)"]
     return ctx.finish(res, trusted=common.TRUSTED_COMMON + [
-        "hand-written models Model/Doc.lean (all of prettier.rs) and Model/CommentQueue.lean (peek/consume, create_comment_reference, comment prepending)",
+        "hand-written models Model/Doc.lean (all of prettier.rs), Model/CommentQueue.lean (peek/consume, create_comment_reference, comment prepending), Model/Imports.lean (import grouping/merging/sorting and import_to_document); builder-C08's Model/Fmt.lean for the fragment corollary",
         "hooks samlang_printer::verif_hooks (layout/expand/flatten/module_doc) and samlang_parser::verif_hooks_queue",
         "not modelled (oracle only): the per-production comment attachment of source_parser.rs and the per-construct document construction of source_printer.rs; for the latter the hypothesis Agree(commentKey) of layout_preserves_text is evaluated on the real documents at run time",
         "vlib/c09_contexts.json: token contexts of the open findings C09-F2/C09-F3 (reference enumeration on the unchanged tree)"])
